@@ -176,3 +176,55 @@ Example C08_example_next_lost :
   g_next example_graph = 3 /\
   decode 1048576 4 (encode example_graph) <> LOk example_graph.
 Proof. split; [reflexivity|]. vm_compute. discriminate. Qed.
+
+(** ** every graph reachable through the interface satisfies the hypothesis *)
+
+From Sodg Require Import Wf.
+
+Theorem C08_reachable_graphs :
+  forall n cap os lim,
+  within_limits n cap sinit os -> Forall wf_op os ->
+  (16 < lim)%N -> (N.of_nat cap < lim)%N -> (lim <= two64)%N -> (N.of_nat n < two64)%N ->
+  exists g, run n (op_empty cap) os = Ok (g, snd (srun sinit os))
+    /\ decode lim n (encode g) = LOk (mkG (g_stores g) (g_branches g) (g_vertices g) 0)
+    /\ forall k, k < length (encode g) -> decode lim n (firstn k (encode g)) = LErr.
+Proof. exact reachable_roundtrip. Qed.
+
+Check C08_reachable_graphs :
+  forall n cap os lim,
+  within_limits n cap sinit os -> Forall wf_op os ->
+  (16 < lim)%N -> (N.of_nat cap < lim)%N -> (lim <= two64)%N -> (N.of_nat n < two64)%N ->
+  exists g, run n (op_empty cap) os = Ok (g, snd (srun sinit os))
+    /\ decode lim n (encode g) = LOk (mkG (g_stores g) (g_branches g) (g_vertices g) 0)
+    /\ forall k, k < length (encode g) -> decode lim n (firstn k (encode g)) = LErr.
+Print Assumptions C08_reachable_graphs.
+
+Theorem C08_invariant_states_are_wellformed :
+  forall n g lim,
+  Inv n g -> Wf g ->
+  (16 < lim)%N -> (N.of_nat (cap_of g) < lim)%N -> (lim <= two64)%N -> (N.of_nat n < two64)%N ->
+  wf_image_state lim n g.
+Proof. exact inv_wf_image. Qed.
+
+Check C08_invariant_states_are_wellformed :
+  forall n g lim,
+  Inv n g -> Wf g ->
+  (16 < lim)%N -> (N.of_nat (cap_of g) < lim)%N -> (lim <= two64)%N -> (N.of_nat n < two64)%N ->
+  wf_image_state lim n g.
+Print Assumptions C08_invariant_states_are_wellformed.
+
+Theorem C08_def_wf_op :
+  forall o, wf_op o <-> match o with
+                        | OBind _ _ a => wf_label a = true
+                        | OPut _ d => wf_hex d = true /\ hex_small d
+                        | _ => True
+                        end.
+Proof. intros o. reflexivity. Qed.
+
+Check C08_def_wf_op :
+  forall o, wf_op o <-> match o with
+                        | OBind _ _ a => wf_label a = true
+                        | OPut _ d => wf_hex d = true /\ hex_small d
+                        | _ => True
+                        end.
+Print Assumptions C08_def_wf_op.
